@@ -1062,3 +1062,123 @@ Proof.
               displacement (map tgt (sorted_items its)) (solve_sorted o (sorted_items its))) by (field; lra).
   rewrite E. exact D.
 Qed.
+
+(* ---------- I. an item with room around its target is not moved ---------- *)
+
+Lemma qnth_app1 i (A B : list Q) : (i < length A)%nat -> qnth i (A ++ B) = qnth i A.
+Proof. intro H. unfold qnth. apply app_nth1. exact H. Qed.
+
+Lemma qnth_app_last (A : list Q) c : qnth (length A) (A ++ [c]) = c.
+Proof. unfold qnth. rewrite app_nth2 by lia. rewrite Nat.sub_diag. reflexivity. Qed.
+
+Lemma qnth_S i a (l : list Q) : qnth (S i) (a :: l) = qnth i l.
+Proof. reflexivity. Qed.
+
+Lemma qnth_map_tgt s i a : nth_error s i = Some a -> qnth i (map tgt s) = tgt a.
+Proof.
+  intro H. unfold qnth. rewrite (nth_indep _ 0 (tgt a)).
+  - rewrite map_nth. f_equal. apply nth_error_nth. exact H.
+  - rewrite map_length. apply nth_error_Some. congruence.
+Qed.
+
+Lemma nth_error_last {A} : forall (s : list A) i a d, nth_error s i = Some a -> S i = length s -> last s d = a.
+Proof.
+  induction s as [|b s IH]; intros i a d H L; [destruct i; discriminate|].
+  destruct s as [|c s].
+  - destruct i; [cbn in *; congruence|cbn in L; lia].
+  - destruct i as [|i]; [cbn in L; lia|].
+    change (last (b :: c :: s) d) with (last (c :: s) d). apply (IH i); [exact H|cbn [length] in *; lia].
+Qed.
+
+(* Item i of the layer (in target order): if its left neighbour's solved
+   position plus the gap is not right of its target (for the first item: the
+   left wall plus half its width, if there is a lower bound), and likewise on
+   the right, then it sits exactly at its target. *)
+Theorem C02_unmoved_item_lemma o its i a : nth_error (sorted_items its) i = Some a ->
+  let s := sorted_items its in
+  let x := solve_layer_exact o its in
+  let g := gaps o s in
+  match i with
+  | O => match minP o with Some _ => wallL o s + wid a / 2 <= tgt a | None => True end
+  | S i' => qnth i' x + qnth i' g <= tgt a
+  end ->
+  (if (S i =? length its)%nat
+   then match maxP o with Some _ => tgt a <= wallR o s - wid a / 2 | None => True end
+   else tgt a <= qnth (S i) x - qnth i g) ->
+  qnth i x == tgt a /\ nth i (solve_layer o its) 0%Z = pyround (tgt a).
+Proof.
+  intros Ha s x g HL HR. subst x g. unfold solve_layer_exact in *. fold s in Ha, HL, HR |- *.
+  assert (Ls : length s = length its) by (unfold s, sorted_items; apply sort_length).
+  assert (Hi : (i < length s)%nat) by (apply nth_error_Some; congruence).
+  assert (N : s <> []) by (intro E; rewrite E in Hi; cbn in Hi; lia).
+  cut (qnth i (solve_sorted o s) == tgt a).
+  { intro E. split; [exact E|]. unfold solve_layer, solve_layer_exact. fold s.
+    rewrite map_qnth_pyround by (rewrite solve_sorted_length; exact Hi). apply pyround_comp. exact E. }
+  destruct (solve_view o s N) as [V Lx].
+  pose proof (chain_ok_layer o s N) as CK.
+  pose proof (qnth_map_tgt s i a Ha) as Td.
+  pose proof (gaps_length o s) as Lgp.
+  rewrite <- Ls in HR.
+  destruct s as [|f s'] eqn:Es; [congruence|]. rewrite <- Es in *.
+  assert (Ef : i = 0%nat -> a = f) by (intros ->; rewrite Es in Ha; cbn in Ha; congruence).
+  assert (El : S i = length s -> last s f = a) by (intro E; apply (nth_error_last s i a f Ha E)).
+  set (xs := solve_sorted o s) in *. set (xl := wallL o s) in *. set (xr := wallR o s) in *.
+  assert (Lm : length (map tgt s) = length s) by apply map_length.
+  unfold with_walls in V.
+  destruct (minP o) as [m|] eqn:Em, (maxP o) as [M|] eqn:EM; cbn [ifsome app] in V.
+  - (* both walls: chain index S i *)
+    pose proof (pava_unmoved_item _ _ _ (S i) CK) as U. fold (solve_full o s) in U.
+    unfold chain_d, chain_g in U. rewrite Em, EM, Es in U. rewrite <- Es in U.
+    cbn [optl ifsome app length] in U. rewrite V in U.
+    rewrite !qnth_S in U. rewrite (qnth_app1 i xs) in U by lia.
+    rewrite (qnth_app1 i (map tgt s)) in U by lia. rewrite Td in U.
+    apply U; clear U; rewrite ?app_nil_r.
+    + rewrite app_length, Lm. cbn [length]. lia.
+    + destruct i as [|i'].
+      * unfold qnth. cbn [nth]. rewrite <- (Ef eq_refl). lra.
+      * rewrite !qnth_S. rewrite (qnth_app1 i' xs) by lia. rewrite (qnth_app1 i' (gaps o s)) by lia. exact HL.
+    + right. destruct (Nat.eqb_spec (S i) (length s)) as [E|E].
+      * assert (E1 : i = length (gaps o s)) by lia. assert (E2 : S i = length xs) by lia.
+        replace (qnth (S i) (xs ++ [xr])) with xr by (rewrite E2; symmetry; apply qnth_app_last).
+        replace (qnth i (gaps o s ++ [wid (last s f) / 2])) with (wid (last s f) / 2)
+          by (rewrite E1 at 1; symmetry; apply qnth_app_last).
+        rewrite (El E). lra.
+      * rewrite (qnth_app1 (S i) xs) by lia. rewrite (qnth_app1 i (gaps o s)) by lia. exact HR.
+  - (* lower wall only *)
+    pose proof (pava_unmoved_item _ _ _ (S i) CK) as U. fold (solve_full o s) in U.
+    unfold chain_d, chain_g in U. rewrite Em, EM, Es in U. rewrite <- Es in U.
+    cbn [optl ifsome app length] in U. rewrite !app_nil_r in U, V. rewrite V in U.
+    rewrite !qnth_S in U. rewrite Td in U.
+    apply U; clear U; rewrite ?app_nil_r.
+    + rewrite Lm. lia.
+    + destruct i as [|i'].
+      * unfold qnth. cbn [nth]. rewrite <- (Ef eq_refl). lra.
+      * rewrite !qnth_S. exact HL.
+    + destruct (Nat.eqb_spec (S i) (length s)) as [E|E]; [left; rewrite Lm; lia|right; exact HR].
+  - (* upper wall only: chain index i *)
+    pose proof (pava_unmoved_item _ _ _ i CK) as U. fold (solve_full o s) in U.
+    unfold chain_d, chain_g in U. rewrite Em, EM, Es in U. rewrite <- Es in U.
+    cbn [optl ifsome app length] in U. rewrite V in U.
+    rewrite (qnth_app1 i xs) in U by lia.
+    rewrite (qnth_app1 i (map tgt s)) in U by lia. rewrite Td in U.
+    apply U; clear U; rewrite ?app_nil_r.
+    + rewrite app_length, Lm. cbn [length]. lia.
+    + destruct i as [|i']; [exact I|].
+      rewrite (qnth_app1 i' xs) by lia. rewrite (qnth_app1 i' (gaps o s)) by lia. exact HL.
+    + right. destruct (Nat.eqb_spec (S i) (length s)) as [E|E].
+      * assert (E1 : i = length (gaps o s)) by lia. assert (E2 : S i = length xs) by lia.
+        replace (qnth (S i) (xs ++ [xr])) with xr by (rewrite E2; symmetry; apply qnth_app_last).
+        replace (qnth i (gaps o s ++ [wid (last s f) / 2])) with (wid (last s f) / 2)
+          by (rewrite E1 at 1; symmetry; apply qnth_app_last).
+        rewrite (El E). lra.
+      * rewrite (qnth_app1 (S i) xs) by lia. rewrite (qnth_app1 i (gaps o s)) by lia. exact HR.
+  - (* no walls *)
+    pose proof (pava_unmoved_item _ _ _ i CK) as U. fold (solve_full o s) in U.
+    unfold chain_d, chain_g in U. rewrite Em, EM, Es in U. rewrite <- Es in U.
+    cbn [optl ifsome app length] in U. rewrite !app_nil_r in U, V. rewrite V in U.
+    rewrite Td in U.
+    apply U; clear U; rewrite ?app_nil_r.
+    + rewrite Lm. lia.
+    + destruct i as [|i']; [exact I|exact HL].
+    + destruct (Nat.eqb_spec (S i) (length s)) as [E|E]; [left; rewrite Lm; lia|right; exact HR].
+Qed.
